@@ -423,7 +423,7 @@ class HostConnection(object):
         conn = self._get_connection()
         if conn.orphaned_threshold_reached:
             with self._lock:
-                if not self._is_replacing:
+                if not self._is_replacing and conn is self._connection:
                     self._is_replacing = True
                     self._session.submit(self._replace, conn)
                     log.debug(
